@@ -7,8 +7,8 @@
    is.  In the code this is two mechanisms: reflect.Select for k > maxSelectNum and the
    hand-unrolled [receiveN] table for 1 <= k <= maxSelectNum.  The model's treatment is right
    for the table iff entry k has exactly k cases, case j receives from chosenList[j] and reports
-   chosenList[j] ([receive_table] below is that diagonal table), and both places that choose
-   between the mechanisms compare with the same operator.  Definitions only. *)
+   chosenList[j] ([receive_table] below is that diagonal table), and the two places that choose
+   between the mechanisms fit together ([select_mechanisms_ok] below).  Definitions only. *)
 From Eino Require Import Base.Util Model.Stream.
 Local Open Scope string_scope.
 
@@ -18,6 +18,23 @@ Definition max_select_num : nat := maxSelectNum.
 Definition receive_row (k : nat) : list (nat * nat) := map (fun j => (j, j)) (seq 0 k).
 Definition receive_table : list (list (nat * nat)) := map receive_row (seq 1 max_select_num).
 
-(* newMultiStreamReader builds the reflect cases iff len(sts) > maxSelectNum; recv uses them
-   iff len(chosenList) > maxSelectNum *)
-Definition select_threshold_ops : list string := [ "len(sts)>"; "len(msr.chosenList)>" ].
+(* newMultiStreamReader builds the reflect cases iff len(sts) > maxSelectNum; recv uses them iff
+   len(chosenList) > maxSelectNum.  As functions of n = len(sts) (all sources of the merged reader)
+   and k = len(chosenList) (the sources that have not ended yet), the way tools/go2v regenerates them
+   (round 5) from whichever function of schema/stream.go holds the comparison (recv itself or a
+   private helper it calls; `>` or the mirrored `<=` with the branches swapped): *)
+Definition builds_reflect_cases (n k : nat) : bool := Nat.ltb max_select_num n.
+Definition recv_uses_reflect (n k : nat) : bool := Nat.ltb max_select_num k.
+
+(* What Model/Stream.v needs of them (it does not need the particular threshold): in every state a
+   merged reader can be in (1 <= k <= n: the loop of recv runs while k > 0, and chosenList only
+   shrinks), (a) reflect.Select is only run on select cases that newMultiStreamReader has built
+   (on a nil case list it would block for ever), and (b) otherwise receiveN is only asked for an
+   arity that its table has an entry for (beyond it: index out of range).  With the diagonal shape of
+   the table (Proofs/GenAgreeStream.v, receive_table_diagonal) both mechanisms then are "receive
+   from any ready source among the remaining ones and report that source" — the [RMul] case of
+   [recv_reader]. *)
+Definition select_mechanisms_ok (table : list (list (nat * nat))) (builds uses : nat -> nat -> bool) : Prop :=
+  forall n k, 1 <= k <= n ->
+    (uses n k = true -> builds n k = true) /\
+    (uses n k = false -> k <= List.length table).
